@@ -1,4 +1,3 @@
 package sim
 
-func CrashWorkerMain(args []string) int { return 2 }
-func SelfTestMain(args []string) int    { return 2 }
+func SelfTestMain(args []string) int { return 2 }
